@@ -11,6 +11,7 @@ import (
 	"flag"
 	"fmt"
 	"math/rand"
+	"net"
 	"os"
 	"runtime"
 	"strings"
@@ -19,6 +20,7 @@ import (
 
 	am "github.com/pancsta/asyncmachine-go/pkg/machine"
 	arpc "github.com/pancsta/asyncmachine-go/pkg/rpc"
+	ssrpc "github.com/pancsta/asyncmachine-go/pkg/rpc/states"
 )
 
 var names = am.S{"A", "B", "C", "D", "E", "Exception"}
@@ -325,7 +327,53 @@ func runNetProgram(seed int64, g, ops int) {
 			defer wg.Done()
 			defer func() { recover() }()
 			for k := 0; k < ops; k++ {
-				switch r.Intn(14) {
+				switch r.Intn(34) {
+				case 14:
+					_ = nm.StringAll()
+				case 15:
+					_ = nm.Inspect(nil)
+				case 16:
+					nm.IsTime(nm.Time(nil), nil)
+				case 17:
+					nm.IsClock(nm.Clock(nil))
+				case 18:
+					// (NetworkMachine.Export always deadlocks: it takes schemaMx in read mode and then
+					// calls StateNames, which takes it in write mode - not a data race, not drawn)
+					nm.Has1(pick(r))
+				case 19:
+					nm.Schema()
+				case 20:
+					nm.StateNames()
+				case 21:
+					nm.Tracers()
+				case 22:
+					nm.Tags()
+				case 23:
+					nm.Has1(pick(r))
+				case 24:
+					nm.Index1(pick(r))
+				case 25:
+					nm.Err()
+				case 26:
+					nm.Transition()
+				case 27:
+					c, cancel := context.WithCancel(ctx)
+					nm.WhenTime1(pick(r), nm.Tick(pick(r))+1, c)
+					cancel()
+				case 28:
+					c, cancel := context.WithCancel(ctx)
+					nm.WhenQuery(func(cl am.Clock) bool { return false }, c)
+					cancel()
+				case 29:
+					nm.Switch(am.S{pick(r), pick(r)})
+				case 30:
+					nm.Handlers()
+				case 31:
+					nm.ParseStates(am.S{pick(r), "Nope"})
+				case 32:
+					nm.WasTime(nm.Time(nil), nil)
+				case 33:
+					nm.QueueLen()
 				case 0:
 					nm.Is1(pick(r))
 				case 1:
@@ -364,7 +412,130 @@ func runNetProgram(seed int64, g, ops int) {
 			}
 		}()
 	}
-	wg.Wait()
+	done := make(chan struct{})
+	go func() { wg.Wait(); close(done) }()
+	select {
+	case <-done:
+	case <-time.After(20 * time.Second):
+		fmt.Println("HANG program", seed)
+	}
+}
+
+// runPairProgram: a real rpc server / client pair over loopback: the source changes (ticker pushes),
+// mutations are made through the network machine (replies), full syncs are asked for, while readers
+// use the network machine.
+func runPairProgram(seed int64, g, ops int) {
+	r0 := rand.New(rand.NewSource(seed))
+	ctx, cancel := context.WithCancel(context.Background())
+	defer cancel()
+	src := am.New(ctx, schema(), &am.Opts{Id: fmt.Sprintf("pairsrc%d", seed%100000)})
+	src.VerifyStates(names)
+	l, err := net.Listen("tcp4", "127.0.0.1:0")
+	if err != nil {
+		fmt.Println("pair setup:", err)
+		return
+	}
+	addr := l.Addr().String()
+	srv, err := arpc.NewServer(ctx, addr, fmt.Sprintf("ps%d", seed%100000), src, &arpc.ServerOpts{Parent: src})
+	if err != nil {
+		fmt.Println("pair setup:", err)
+		return
+	}
+	srv.Listener.Store(&l)
+	iv := 2 * time.Millisecond
+	srv.PushInterval.Store(&iv)
+	cli, err := arpc.NewClient(ctx, addr, fmt.Sprintf("pc%d", seed%100000), src.Schema(), &arpc.ClientOpts{SyncShallowClocks: r0.Intn(3) == 0})
+	if err != nil {
+		fmt.Println("pair setup:", err)
+		return
+	}
+	srv.Start(nil)
+	cli.Start(nil)
+	select {
+	case <-cli.Mach.When1(ssrpc.ClientStates.Ready, nil):
+	case <-time.After(5 * time.Second):
+		fmt.Println("pair setup: client not ready")
+		return
+	}
+	nm := cli.NetMach
+	var wg sync.WaitGroup
+	spawn := func(f func(r *rand.Rand)) {
+		wg.Add(1)
+		r := rand.New(rand.NewSource(r0.Int63()))
+		go func() {
+			defer wg.Done()
+			defer func() { recover() }()
+			f(r)
+		}()
+	}
+	spawn(func(r *rand.Rand) {
+		for k := 0; k < ops; k++ {
+			switch r.Intn(3) {
+			case 0:
+				src.Add1(pick(r), nil)
+			case 1:
+				src.Remove1(pick(r), nil)
+			default:
+				src.Toggle1(pick(r), nil)
+			}
+			time.Sleep(time.Duration(r.Intn(1500)) * time.Microsecond)
+		}
+	})
+	spawn(func(r *rand.Rand) {
+		for k := 0; k < ops/4; k++ {
+			cli.Sync()
+			time.Sleep(time.Duration(r.Intn(2000)) * time.Microsecond)
+		}
+	})
+	spawn(func(r *rand.Rand) {
+		for k := 0; k < ops/3; k++ {
+			if r.Intn(2) == 0 {
+				nm.Add1(pick(r), nil)
+			} else {
+				nm.Remove1(pick(r), nil)
+			}
+		}
+	})
+	for i := 0; i < g; i++ {
+		spawn(func(r *rand.Rand) {
+			for k := 0; k < ops; k++ {
+				switch r.Intn(10) {
+				case 0:
+					nm.Is1(pick(r))
+				case 1:
+					nm.Tick(pick(r))
+				case 2:
+					nm.Time(nil)
+				case 3:
+					nm.ActiveStates(nil)
+				case 4:
+					nm.Clock(nil)
+				case 5:
+					_ = nm.String()
+				case 6:
+					c, cancel := context.WithCancel(ctx)
+					nm.When1(pick(r), c)
+					cancel()
+				case 7:
+					nm.MachineTick()
+				case 8:
+					nm.QueueTick()
+				case 9:
+					nm.IsTime(nm.Time(nil), nil)
+				}
+			}
+		})
+	}
+	done := make(chan struct{})
+	go func() { wg.Wait(); close(done) }()
+	select {
+	case <-done:
+	case <-time.After(20 * time.Second):
+		fmt.Println("HANG program", seed)
+	}
+	cli.Stop(ctx, nil, true)
+	srv.Stop(nil, true)
+	src.Dispose()
 }
 
 func main() {
@@ -382,9 +553,14 @@ func main() {
 		if *kind == "net" || (*kind == "all" && i%5 == 4) {
 			k = "net"
 		}
+		if *kind == "pair" || (*kind == "all" && i%10 == 9) {
+			k = "pair"
+		}
 		fmt.Printf("PROGRAM seed=%d kind=%s g=%d ops=%d\n", s, k, gg, *ops)
 		os.Stdout.Sync()
-		if k == "net" {
+		if k == "pair" {
+			runPairProgram(s, gg, *ops)
+		} else if k == "net" {
 			runNetProgram(s, gg, *ops)
 		} else {
 			runMachineProgram(s, gg, *ops, r.Intn(3) != 0, r.Intn(64))
